@@ -68,7 +68,10 @@ fn read_data(file: &mut File, path: &Path) -> Result<Vec<u8>, A2lError> {
         }
     };
     let bufsize = usize::try_from(filesize).unwrap_or(usize::MAX); // filesize > 4GB on 32bit systems - is it sane ?!?
-    let mut buffer = Vec::with_capacity(bufsize);
+    // the reported size is only a hint. If it is absurdly large (special files), then the memory
+    // can't be reserved, but that must not panic or abort: read_to_end grows the buffer as needed
+    let mut buffer = Vec::new();
+    let _ = buffer.try_reserve_exact(bufsize);
     let read_result = file.read_to_end(&mut buffer);
     match read_result {
         Ok(_) => Ok(buffer),
